@@ -253,6 +253,7 @@ def boom(ctx, dist, nontriv, per_cfg):
                        "shape": {"config": "execboom:base", "build": "fail"}})
         return
     argfaults(ctx, b, dist, nontriv, per_cfg)
+    elemfaults(ctx, b, dist, nontriv, per_cfg)
     rounds = 18 if ctx.tier == "quick" else 120
     plan0 = {"seed": ctx.seed, "rates": {}}
     sites = [
@@ -414,3 +415,59 @@ def argfaults(ctx, b, dist, nontriv, per_cfg):
         else:
             okc += 1
     per_cfg["execboom:base/argument-unmarshal"] = {"cases": len(meta), "as_stated": okc}
+
+
+def elemfaults(ctx, b, dist, nontriv, per_cfg):
+    """a panic that escapes the marshal function of ONE element of a list whose elements are marshalled on
+    goroutines (a bound enum's Marshal function): that list fails - null, one error at the element's path, the
+    recover hook once - whatever the schedule; the other positions keep their values"""
+    reps = 6 if ctx.tier == "quick" else 40
+    cases = []
+    meta = []
+    for n, k in ((2, 0), (2, 1), (4, 1), (4, 3), (7, 2)):
+        for fld in ("moods", "moodsN"):
+            ov = {"t": {"kind": "value"}, "t/" + fld: {"kind": "value", "len": n}}
+            for j in range(n):
+                ov["t/%s/%d#elem" % (fld, j)] = {"kind": "value", "str": "GRUMPY" if j == k else "SAD"}
+            for rep in range(reps):
+                cid = "elem-panic-%s-%d-of-%d-%d" % (fld, k, n, rep)
+                cases.append({"id": cid, "transport": "post", "query": "{ ok t { s %s } }" % fld,
+                              "plan": {"seed": ctx.seed + rep, "rates": {"delay": 600, "maxDelay": 200}, "overrides": ov}})
+                meta.append((cid, fld, n, k))
+    rc, so, se = vf.sh([b, "-mode", "http"], inp="\n".join(json.dumps(c) for c in cases) + "\n", timeout=900)
+    if rc != 0:
+        ctx.violation({"kind": "crash", "config": "execboom:base", "where": "list element marshal panic", "stderr": se[-4000:],
+                       "shape": {"crash": True, "where": "element-marshal"}, "cases": cases[:2]})
+        return
+    res = [json.loads(l) for l in so.split("\n") if l]
+    okc = 0
+    for c, (cid, fld, n, k), r in zip(cases, meta, res):
+        bad = None
+        try:
+            j = json.loads(r.get("body") or "")
+        except ValueError:
+            j = None
+        if r.get("hung"):
+            bad = "no answer"
+        elif r.get("status") != 200 or j is None:
+            bad = "status %s body %s" % (r.get("status"), (r.get("body") or "")[:200])
+        else:
+            errs = j.get("errors") or []
+            t = (j.get("data") or {}).get("t")
+            if r["recovers"] != 1:
+                bad = "recover hook ran %d times for one panic" % r["recovers"]
+            elif len(errs) != 1 or errs[0].get("path") != ["t", fld, k] or "GRUMPY" not in errs[0].get("message", ""):
+                bad = "errors are not exactly the one at the element's path: %s" % json.dumps(errs)[:300]
+            elif not isinstance(t, dict) or t.get(fld, 0) is not None or "s" not in t or (j.get("data") or {}).get("ok") is None:
+                bad = "the list is not null with everything else intact: %s" % json.dumps(j.get("data"))[:300]
+        dist["element-marshal-panic"] += 1
+        nontriv.add(cid)
+        if bad:
+            ctx.violation({"kind": "element-marshal-panic", "what": bad, "config": "execboom:base", "case": c, "result": r,
+                           "shape": {"kind": "element-marshal-panic", "what": bad.split(":")[0][:40]},
+                           "replay": "echo '<case json>' | <generated server execboom:base> -mode http   (schedule-dependent: repeat)"})
+            if len([1 for v in ctx.violations]) > 12:
+                break
+        else:
+            okc += 1
+    per_cfg["execboom:base/element-marshal-panic"] = {"cases": len(cases), "as_stated": okc}
